@@ -122,8 +122,12 @@ def run(tier, seed):
     n = 400 if tier == "quick" else 6000
     res = vlib.run_tlc("BiasedRc", "MC_BiasedRc_sim.cfg", work, workers=4, timeout=900,
                        simulate=f"num={n}", seed=seed, extra_java=None, allow_violation=False)
+    # coverage-directed: every distinct terminal state of the small as-is model that is reached through at
+    # least one FAILED compare-and-swap (random walks almost never produce a retry), one witness schedule each
+    res2 = vlib.run_tlc("BiasedRc", "MC_BiasedRc_retry.cfg", work, workers=8, timeout=900)
+    r.add_tlc(res2)
     behs = {}
-    for c in res["cases"]:
+    for c in res["cases"] + res2["cases"]:
         h = hashlib.sha1(json.dumps(c["hist"]).encode()).hexdigest()[:12]
         c["id"] = "b-" + h
         behs[c["id"]] = c
@@ -172,8 +176,8 @@ def run(tier, seed):
             else:
                 r.notes.append(f"spec-drift on {b['id']}: diverged={o['diverged']} predicted={b['proj']} observed={o['proj']}")
     r.cov["distinct_nontrivial"] = nontrivial
-    r.cov["rule"] = ("exhaustive TLC run of the repaired protocol (3 threads); as-is counterexamples and seeded random "
-                     "behaviours of the as-is model replayed step for step on the real crate; distinct = distinct schedules, "
+    r.cov["rule"] = ("exhaustive TLC run of the repaired protocol (3 threads); as-is counterexamples, seeded random "
+                     "behaviours and one witness schedule per terminal state reached through a failed CAS, replayed step for step on the real crate; distinct = distinct schedules, "
                      "non-trivial = at least two threads take steps")
     drift = sum(1 for x in r.notes if x.startswith("spec-drift"))
     if drift:
